@@ -446,6 +446,7 @@ template <class Cfg> struct Explorer
 {
     vh::Ctx& ctx; std::string cfgname;
     long depth, ndims; std::vector<int> aligns; int naids; bool faults;
+    long fup = 1;      // post-fault follow-ups: for a fault fired in the (|H|+1)-th operation with |H| <= fup, every enabled operation is applied once more
     std::set<std::string> seen;
     std::deque<std::vector<Op>> queue;
 
@@ -492,9 +493,38 @@ template <class Cfg> struct Explorer
         std::vector<Op> H2 = H; H2.push_back(op);
         std::string id = hist_str(H2) + (alloc_fault ? "/fail-alloc#" : "/fail-ctor#") + std::to_string(f);
         report(m, id);
+        std::vector<Op> next;                        // what is enabled in the post-fault state (taken before the teardown below destroys the images)
+        if (m.threw && long(H.size()) <= fup) next = m.enabled(ndims, aligns, naids);
         m.teardown_check();
         report(m, id + "/teardown");
         ++ctx.evaluations; ++ctx.counters["fault_executions"];
+        // "the target still holds a valid image": the history goes on after the exception.  Every operation enabled in the post-fault state is
+        // applied once, fault-free, to a fresh replay of (H, op with the same fault); the model knows the dimensions of the surviving images
+        // but neither their contents nor an alignment promise, and each operation re-establishes what the statement says about it.
+        if (m.threw && long(H.size()) <= fup)
+        {
+            for (Op const& op2 : next)
+            {
+                Machine<Cfg> m2(ctx);
+                for (auto& o : H) m2.apply(o);
+                L().want = alloc_fault; L().fail_at = f; L().armed_allocs = 0;
+                C().want = !alloc_fault; C().fail_at = f; C().armed_ctors = 0;
+                m2.apply(op);
+                L().want = false; C().want = false; L().fail_at = -1; C().fail_at = -1;
+                if (!m2.threw) { ctx.fail(cfgname + "/" + id, "harness:fault-replay-diverged", ""); break; }
+                m2.fails.clear();
+                m2.apply(op2);
+                if (m2.threw) m2.fail("exception-without-injected-fault");
+                m2.invariant();
+                std::string id2 = id + ";" + op_str(op2);
+                report(m2, id2);
+                m2.teardown_check();
+                report(m2, id2 + "/teardown");
+                ++ctx.evaluations; ++ctx.counters["post_fault_followups"];
+                ++ctx.witness["post_fault_followups"];
+                if (op2.code >= RECREATE && op2.code <= RECREATE_FILL_ALLOC && op.code >= RECREATE && op.code <= RECREATE_FILL_ALLOC && op2.slot == op.slot) ++ctx.witness["recreate_retried_after_failed_recreate"];
+            }
+        }
     }
     void run()
     {
@@ -539,7 +569,7 @@ template <class Cfg> void run_cfg(vh::Ctx& ctx, const char* kindname, int naids)
     vh::ubsan_counts() = false;
     Explorer<Cfg> ex{ctx};
     ex.cfgname = std::string(Cfg::name()) + "/" + kindname;
-    ex.depth = ctx.B("depth", 3); ex.ndims = ctx.B("ndims", 5); ex.naids = naids; ex.faults = ctx.B("faults", 1) != 0;
+    ex.depth = ctx.B("depth", 3); ex.ndims = ctx.B("ndims", 5); ex.naids = naids; ex.faults = ctx.B("faults", 1) != 0; ex.fup = ctx.B("fup", 1);
     long am = ctx.B("aligns", 2);
     ex.aligns = am == 1 ? std::vector<int>{0} : am == 2 ? std::vector<int>{0, 8} : am == 3 ? std::vector<int>{0, 1, 4, 16} : std::vector<int>{0, 1, 2, 4, 8, 16, 32};
     L().misalign = int(ctx.B("misalign", 0));
